@@ -33,7 +33,7 @@ func canonKey(v value) (interface{}, bool) {
 	switch x := v.(type) {
 	case bool, int, int8, int16, int32, int64, uint, uint8, uint16, uint32, uint64, uintptr, float32, float64, string, *value, chan value:
 		return x, true
-	case sym, *symstr, *fdstr:
+	case sym, *symstr, *fdstr, *ropestr:
 		return nil, false
 	case structure:
 		var sb strings.Builder
@@ -90,6 +90,28 @@ func (m *gmap) find(i *interpreter, key value) int {
 		}
 		if k, ok := m.idx[ck]; ok {
 			return k
+		}
+		return -1
+	}
+	// finite-domain key: only rows that are present can match
+	if fd, ok := key.(*fdstr); ok && m.nsym == 0 {
+		cands := map[int]*Term{}
+		var order []int
+		for r, row := range fd.tab {
+			if k, ok := m.idx[row]; ok {
+				c := i.ts.Cmp(OpEq, fd.sel, i.ts.Const(16, uint64(r)))
+				if old, ok := cands[k]; ok {
+					cands[k] = i.ts.Or(old, c)
+				} else {
+					cands[k] = c
+					order = append(order, k)
+				}
+			}
+		}
+		for _, k := range order {
+			if i.branch(cands[k]) {
+				return k
+			}
 		}
 		return -1
 	}
